@@ -350,7 +350,7 @@ theorem UniqueUsers_empty : UniqueUsers Hooks.empty := by
 /-! ### what a non-raising call of the copied notifier list delivers -/
 
 def deliv (E : Env) (h : Heap) (o : Id) (n : Name) (old new : Val) : Notifier → Option Delivered
-  | .user k _ => if E.dead k || preventTrait h n old new then none else some (.trait k o n old new)
+  | .user k _ => if E.dead k || preventTrait E h o n old new then none else some (.trait k o n old new)
   | .maint .. => none
 
 theorem callTrait_delivered_eq (E : Env) (h : Heap) (o : Id) (n : Name) (old new : Val) :
@@ -390,7 +390,7 @@ theorem callTrait_delivered_eq (E : Env) (h : Heap) (o : Id) (n : Name) (old new
 
 theorem count_deliv (E : Env) (h : Heap) (o : Id) (n : Name) (old new : Val) (k : HKey) (ns : List Notifier) :
     ((ns.filterMap (deliv E h o n old new)).filter (fun d => d.key == k)).length =
-      if E.dead k || preventTrait h n old new then 0 else ns.countP (isUserKey k) := by
+      if E.dead k || preventTrait E h o n old new then 0 else ns.countP (isUserKey k) := by
   induction ns with
   | nil => simp
   | cons nt ns ih =>
@@ -398,10 +398,10 @@ theorem count_deliv (E : Env) (h : Heap) (o : Id) (n : Name) (old new : Val) (k 
     | maint mk g k' => simp only [List.filterMap_cons, deliv, List.countP_cons, isUserKey]; simpa using ih
     | user k' rc =>
       simp only [List.filterMap_cons, deliv, List.countP_cons, isUserKey]
-      by_cases hp : preventTrait h n old new = true
+      by_cases hp : preventTrait E h o n old new = true
       · simp only [hp, Bool.or_true, if_true] at ih ⊢
         exact ih
-      · have hp' : preventTrait h n old new = false := by simpa using hp
+      · have hp' : preventTrait E h o n old new = false := by simpa using hp
         simp only [hp', Bool.or_false] at ih ⊢
         by_cases e : k' = k
         · subst e
@@ -445,7 +445,7 @@ the value calls handler key `k` exactly once if some registration of `k` reaches
 theorem setField_calls (E : Env) (st : St) (regs : List Reg) (o : Id) (n : Name) (v : Val) (fresh : Id)
     (fs : List Field) (f : Field) (hinv : HooksEqReach st.h st.H regs) (fr : SetFrag E st regs o n v fs f)
     (hset : f.val ≠ .unset) (hu : UniqueUsers st.H) (hne : f.val ≠ v)
-    (hprev : preventTrait (storeField st.h o n v) n f.val v = false) (k : HKey) :
+    (hprev : preventTrait E (storeField st.h o n v) o n f.val v = false) (k : HKey) :
     ((mutate E st (.setField o n v fresh)).delivered.filter (fun d => d.key == k)).length =
       if 0 < specCnt st.h regs (.trait o n) (.user k) then 1 else 0 := by
   obtain ⟨hfire, _, _⟩ := fire_preserves E st regs o n v fs f hinv fr
@@ -453,7 +453,7 @@ theorem setField_calls (E : Env) (st : St) (regs : List Reg) (o : Id) (n : Name)
     cases hv : f.val with
     | unset => exact absurd hv hset
     | _ => rfl
-  have hsv : (f.val == v) = false := by simpa using hne
+  have hsv : (f.cmp != Cmp.none && f.val == v) = false := by simp [hne]
   have hpos := cntList_pos_iff_countP k (st.H.get (.trait o n)) (hinv.1 _)
   have hc := hinv.2 (.trait o n) (.user k)
   unfold cnt at hc
